@@ -41,13 +41,17 @@ import (
 	"net/http/httptest"
 	"os"
 	"path/filepath"
+	"runtime"
 	"sort"
 	"strings"
 	"sync"
+	"sync/atomic"
 	"time"
 
 	"github.com/go-jose/go-jose/v4"
 
+	"github.com/dadrus/heimdall/internal/cache"
+	"github.com/dadrus/heimdall/internal/cache/memory"
 	"github.com/dadrus/heimdall/internal/handler/requestcontext"
 	"github.com/dadrus/heimdall/internal/heimdall"
 	"github.com/dadrus/heimdall/internal/rules/mechanisms/authenticators"
@@ -59,28 +63,86 @@ func init() { families["jwt"] = runJwt }
 // key pool, CA, loopback server
 
 type c05Material struct {
-	kind string // rsa | ec256 | ec384 | ec521 | ed | oct
-	priv any
-	pub  any
+	kind string // rsa | rsa3072 | ec256 | ec384 | ec521 | ed | oct
+	once  sync.Once
+	ready atomic.Bool
+	priv  any
+	pub   any
+	err   error
+}
+
+// key material is generated when it is first used (RSA keys are expensive)
+func (m *c05Material) gen() {
+	m.once.Do(func() {
+		switch m.kind {
+		case "rsa", "rsa3072":
+			bits := 2048
+			if m.kind == "rsa3072" {
+				bits = 3072
+			}
+
+			k, err := rsa.GenerateKey(rand.Reader, bits)
+			if err != nil {
+				m.err = err
+
+				return
+			}
+
+			m.priv, m.pub = k, &k.PublicKey
+		case "ec256", "ec384", "ec521":
+			curve := map[string]elliptic.Curve{"ec256": elliptic.P256(), "ec384": elliptic.P384(), "ec521": elliptic.P521()}[m.kind]
+
+			k, err := ecdsa.GenerateKey(curve, rand.Reader)
+			if err != nil {
+				m.err = err
+
+				return
+			}
+
+			m.priv, m.pub = k, &k.PublicKey
+		case "ed":
+			pub, priv, err := ed25519.GenerateKey(rand.Reader)
+			m.priv, m.pub, m.err = priv, pub, err
+		case "oct32", "oct64":
+			n := 32
+			if m.kind == "oct64" {
+				n = 64
+			}
+
+			secret := make([]byte, n)
+			_, _ = rand.Read(secret)
+			m.priv, m.pub = secret, secret
+		}
+	})
+}
+
+func (m *c05Material) private() any { m.gen(); m.ready.Store(true); return m.priv }
+func (m *c05Material) public() any  { m.gen(); m.ready.Store(true); return m.pub }
+
+// what the loopback server answers for one kind of request
+type c05Answer struct {
+	status int
+	body   []byte
 }
 
 type c05World struct {
-	mats      []c05Material
+	mats      []*c05Material
 	caKey     *ecdsa.PrivateKey
 	caCert    *x509.Certificate
+	interKey  *ecdsa.PrivateKey
+	interCert *x509.Certificate
 	otherKey  *ecdsa.PrivateKey
 	otherCert *x509.Certificate
 	trustFile string
 	certs     map[string]*x509.Certificate
 	srv       *httptest.Server
 
-	mu         sync.Mutex
-	jwksStatus int
-	jwksBody   []byte
-	metaStatus int
-	metaBody   []byte
-	jwksCalls  int
-	metaCalls  int
+	mu        sync.Mutex
+	jwks      c05Answer
+	jwksByIss map[string]c05Answer
+	meta      c05Answer
+	jwksCalls int
+	metaCalls int
 }
 
 var (
@@ -90,58 +152,29 @@ var (
 )
 
 func c05Setup() {
+	// one P: what a sync.Pool hands from one request to the next is then deterministic
+	runtime.GOMAXPROCS(1)
+
 	w := &c05World{certs: map[string]*x509.Certificate{}}
 
-	for i := 0; i < 2; i++ {
-		k, err := rsa.GenerateKey(rand.Reader, 2048)
-		if err != nil {
-			c05Err = err
-
-			return
-		}
-
-		w.mats = append(w.mats, c05Material{"rsa", k, &k.PublicKey})
-	}
-
-	for _, c := range []struct {
-		kind  string
-		curve elliptic.Curve
-	}{{"ec256", elliptic.P256()}, {"ec256", elliptic.P256()}, {"ec384", elliptic.P384()}, {"ec521", elliptic.P521()}} {
-		k, err := ecdsa.GenerateKey(c.curve, rand.Reader)
-		if err != nil {
-			c05Err = err
-
-			return
-		}
-
-		w.mats = append(w.mats, c05Material{c.kind, k, &k.PublicKey})
-	}
-
-	for i := 0; i < 2; i++ {
-		pub, priv, err := ed25519.GenerateKey(rand.Reader)
-		if err != nil {
-			c05Err = err
-
-			return
-		}
-
-		w.mats = append(w.mats, c05Material{"ed", priv, pub})
-	}
-
-	for _, n := range []int{32, 64} {
-		secret := make([]byte, n)
-		_, _ = rand.Read(secret)
-		w.mats = append(w.mats, c05Material{"oct", secret, secret})
+	for _, kind := range []string{"rsa", "rsa", "ec256", "ec256", "ec384", "ec521", "ed", "ed", "oct32", "oct64", "rsa3072"} {
+		w.mats = append(w.mats, &c05Material{kind: kind})
 	}
 
 	var err error
-	if w.caKey, w.caCert, err = c05NewCA("verif C05 CA"); err != nil {
+	if w.caKey, w.caCert, err = c05NewCA("verif C05 CA", nil, nil); err != nil {
 		c05Err = err
 
 		return
 	}
 
-	if w.otherKey, w.otherCert, err = c05NewCA("verif C05 foreign CA"); err != nil {
+	if w.interKey, w.interCert, err = c05NewCA("verif C05 intermediate CA", w.caCert, w.caKey); err != nil {
+		c05Err = err
+
+		return
+	}
+
+	if w.otherKey, w.otherCert, err = c05NewCA("verif C05 foreign CA", nil, nil); err != nil {
 		c05Err = err
 
 		return
@@ -166,7 +199,7 @@ func c05Setup() {
 	c05W = w
 }
 
-func c05NewCA(cn string) (*ecdsa.PrivateKey, *x509.Certificate, error) {
+func c05NewCA(cn string, parent *x509.Certificate, parentKey *ecdsa.PrivateKey) (*ecdsa.PrivateKey, *x509.Certificate, error) {
 	key, err := ecdsa.GenerateKey(elliptic.P256(), rand.Reader)
 	if err != nil {
 		return nil, nil, err
@@ -182,7 +215,12 @@ func c05NewCA(cn string) (*ecdsa.PrivateKey, *x509.Certificate, error) {
 		KeyUsage:              x509.KeyUsageCertSign | x509.KeyUsageCRLSign,
 	}
 
-	der, err := x509.CreateCertificate(rand.Reader, tpl, tpl, &key.PublicKey, key)
+	signer, signerKey := tpl, key
+	if parent != nil {
+		signer, signerKey = parent, parentKey
+	}
+
+	der, err := x509.CreateCertificate(rand.Reader, tpl, signer, &key.PublicKey, signerKey)
 	if err != nil {
 		return nil, nil, err
 	}
@@ -214,6 +252,8 @@ func (w *c05World) cert(mat int, flavour string) (*x509.Certificate, error) {
 		tpl.NotAfter = time.Now().Add(-1 * time.Hour)
 	case "notyet":
 		tpl.NotBefore = time.Now().Add(2 * time.Hour)
+	case "chain", "chain_missing": // issued by the intermediate CA; the chain is / is not part of the JWK
+		issuer, issuerKey = w.interCert, w.interKey
 	case "untrusted":
 		issuer, issuerKey = w.otherCert, w.otherKey
 	case "nousage":
@@ -222,7 +262,7 @@ func (w *c05World) cert(mat int, flavour string) (*x509.Certificate, error) {
 		return nil, fmt.Errorf("unknown certificate flavour %q", flavour)
 	}
 
-	der, err := x509.CreateCertificate(rand.Reader, tpl, issuer, w.mats[mat].pub, issuerKey)
+	der, err := x509.CreateCertificate(rand.Reader, tpl, issuer, w.mats[mat].public(), issuerKey)
 	if err != nil {
 		return nil, err
 	}
@@ -241,20 +281,27 @@ func (w *c05World) serve(rw http.ResponseWriter, req *http.Request) {
 	w.mu.Lock()
 	defer w.mu.Unlock()
 
-	status, body := http.StatusNotFound, []byte(nil)
+	ans := c05Answer{status: http.StatusNotFound}
 
 	switch {
 	case strings.HasPrefix(req.URL.Path, "/jwks"):
 		w.jwksCalls++
-		status, body = w.jwksStatus, w.jwksBody
+
+		if req.URL.Query().Has("iss") { // templated endpoint: one key set per issuer
+			if a, ok := w.jwksByIss[req.URL.Query().Get("iss")]; ok {
+				ans = a
+			}
+		} else {
+			ans = w.jwks
+		}
 	case strings.Contains(req.URL.Path, ".well-known/"):
 		w.metaCalls++
-		status, body = w.metaStatus, w.metaBody
+		ans = w.meta
 	}
 
 	rw.Header().Set("Content-Type", "application/json")
-	rw.WriteHeader(status)
-	_, _ = rw.Write(body)
+	rw.WriteHeader(ans.status)
+	_, _ = rw.Write(ans.body)
 }
 
 // ---------------------------------------------------------------------------------------------------------
@@ -382,7 +429,7 @@ func c05Verify(alg string, pub any, input, sig []byte) bool {
 		return ok && len(k) == ed25519.PublicKeySize && ed25519.Verify(k, input, sig)
 	case strings.HasPrefix(alg, "HS") && hf != nil:
 		k, ok := pub.([]byte)
-		if !ok || len(k) < ch.Size() { // RFC 7518, 3.2: the key must be at least as long as the hash output
+		if !ok || len(k) < ch.Size() { // RFC 7518, 3.2: "a key of the same size as the hash output ... or larger MUST be used"
 			return false
 		}
 
@@ -411,7 +458,7 @@ func (w *c05World) subst(v any, t0 int64) any {
 
 					var doc map[string]any
 
-					enc, _ := json.Marshal(jose.JSONWebKey{Key: w.mats[int(i)%len(w.mats)].pub})
+					enc, _ := json.Marshal(jose.JSONWebKey{Key: w.mats[int(i)%len(w.mats)].public()})
 					_ = json.Unmarshal(enc, &doc)
 
 					return doc
@@ -455,21 +502,32 @@ func (w *c05World) subst(v any, t0 int64) any {
 }
 
 func (w *c05World) jwksJSON(spec map[string]any) ([]byte, error) {
-	set := jose.JSONWebKeySet{Keys: []jose.JSONWebKey{}}
+	entries := []json.RawMessage{}
 
 	for _, e := range getArr(spec, "keys") {
 		k := obj(e)
-		mat := getInt(k, "mat")
 
+		if raw, ok := k["raw"]; ok { // an entry served as written in the case (unknown kty, ...)
+			enc, err := json.Marshal(raw)
+			if err != nil {
+				return nil, err
+			}
+
+			entries = append(entries, enc)
+
+			continue
+		}
+
+		mat := getInt(k, "mat")
 		if mat < 0 || mat >= len(w.mats) {
 			return nil, fmt.Errorf("unknown key material %d", mat)
 		}
 
 		jwk := jose.JSONWebKey{KeyID: getStr(k, "kid"), Algorithm: getStr(k, "alg"), Use: getStr(k, "use")}
 		if getStr(k, "form") == "private" {
-			jwk.Key = w.mats[mat].priv
+			jwk.Key = w.mats[mat].private()
 		} else {
-			jwk.Key = w.mats[mat].pub
+			jwk.Key = w.mats[mat].public()
 		}
 
 		if fl := getStr(k, "cert"); fl != "" && fl != "none" {
@@ -479,16 +537,91 @@ func (w *c05World) jwksJSON(spec map[string]any) ([]byte, error) {
 			}
 
 			jwk.Certificates = []*x509.Certificate{c}
+			if fl == "chain" {
+				jwk.Certificates = append(jwk.Certificates, w.interCert)
+			}
 		}
 
-		set.Keys = append(set.Keys, jwk)
+		enc, err := jwk.MarshalJSON()
+		if err != nil {
+			return nil, err
+		}
+
+		entries = append(entries, enc)
 	}
 
-	return json.Marshal(set)
+	return json.Marshal(map[string]any{"keys": entries})
+}
+
+func (w *c05World) jwksAnswer(spec map[string]any) (c05Answer, error) {
+	body, err := w.jwksJSON(spec)
+	if err != nil {
+		return c05Answer{}, err
+	}
+
+	switch getStr(spec, "status") {
+	case "http500":
+		return c05Answer{http.StatusInternalServerError, nil}, nil
+	case "http404":
+		return c05Answer{http.StatusNotFound, nil}, nil
+	case "garbage":
+		return c05Answer{http.StatusOK, []byte(`{"keys": [{"kty": "RSA"`)}, nil
+	case "badkey":
+		return c05Answer{http.StatusOK, []byte(`{"keys": [{"kty": "RSA", "n": "AQAB", "e": ""}]}`)}, nil
+	}
+
+	return c05Answer{http.StatusOK, body}, nil
+}
+
+// serving installs what the endpoints answer during one step
+func (w *c05World) serving(c, step map[string]any) error {
+	jwks := obj(step["jwks"])
+	if jwks == nil {
+		jwks = obj(c["jwks"])
+	}
+
+	def, err := w.jwksAnswer(jwks)
+	if err != nil {
+		return err
+	}
+
+	byIss := map[string]c05Answer{}
+
+	for iss, spec := range obj(jwks["by_issuer"]) {
+		a, err := w.jwksAnswer(obj(spec))
+		if err != nil {
+			return err
+		}
+
+		issuer, _ := w.subst(iss, 0).(string)
+		byIss[issuer] = a
+	}
+
+	meta := obj(c["meta"])
+	ma := c05Answer{status: http.StatusOK}
+
+	switch getStr(meta, "status") {
+	case "http500":
+		ma = c05Answer{http.StatusInternalServerError, nil}
+	case "nojwks":
+		ma.body, _ = json.Marshal(map[string]any{"issuer": w.subst(getStr(meta, "issuer"), 0)})
+	case "noissuer":
+		ma.body, _ = json.Marshal(map[string]any{"jwks_uri": w.srv.URL + "/jwks"})
+	default:
+		ma.body, _ = json.Marshal(map[string]any{
+			"issuer": w.subst(getStr(meta, "issuer"), 0), "jwks_uri": w.srv.URL + "/jwks",
+		})
+	}
+
+	w.mu.Lock()
+	w.jwks, w.jwksByIss, w.meta = def, byIss, ma
+	w.mu.Unlock()
+
+	return nil
 }
 
 func (w *c05World) hmacSecretFromPublic(mat int, form string) ([]byte, error) {
-	pub := w.mats[mat].pub
+	pub := w.mats[mat].public()
 
 	switch form {
 	case "der", "pem":
@@ -565,7 +698,7 @@ func (w *c05World) mint(tok map[string]any, t0 int64) (string, error) {
 			}
 		}
 
-		sg, err := jose.NewSigner(jose.SigningKey{Algorithm: jose.SignatureAlgorithm(alg), Key: w.mats[mat].priv}, opts)
+		sg, err := jose.NewSigner(jose.SigningKey{Algorithm: jose.SignatureAlgorithm(alg), Key: w.mats[mat].private()}, opts)
 		if err != nil {
 			return "", err
 		}
@@ -584,7 +717,7 @@ func (w *c05World) mint(tok map[string]any, t0 int64) (string, error) {
 
 	switch kind {
 	case "key":
-		sig, err = c05Sign(alg, w.mats[getInt(signer, "mat")].priv, []byte(input))
+		sig, err = c05Sign(alg, w.mats[getInt(signer, "mat")].private(), []byte(input))
 	case "hmac_pub":
 		var secret []byte
 
@@ -812,6 +945,44 @@ func c05ParseValue(dec *json.Decoder) (any, bool, error) {
 	return nil, false, errors.New("unexpected delimiter")
 }
 
+// c05PublicJWK reports whether v is a well-formed public JWK (RFC 7517 / 7518), judged with the standard library only
+func c05PublicJWK(v any) bool {
+	m, ok := v.(map[string]any)
+	if !ok {
+		return false
+	}
+
+	if _, private := m["d"]; private {
+		return false
+	}
+
+	octets := func(name string) []byte {
+		str, _ := m[name].(string)
+
+		b, err := c05B64.DecodeString(str)
+		if err != nil || len(b) == 0 {
+			return nil
+		}
+
+		return b
+	}
+
+	switch m["kty"] {
+	case "RSA":
+		return octets("n") != nil && octets("e") != nil
+	case "EC":
+		curve := map[any]elliptic.Curve{"P-256": elliptic.P256(), "P-384": elliptic.P384(), "P-521": elliptic.P521()}[m["crv"]]
+		x, y := octets("x"), octets("y")
+
+		return curve != nil && x != nil && y != nil &&
+			curve.IsOnCurve(new(big.Int).SetBytes(x), new(big.Int).SetBytes(y)) //nolint:staticcheck
+	case "OKP":
+		return m["crv"] == "Ed25519" && len(octets("x")) == ed25519.PublicKeySize
+	}
+
+	return false
+}
+
 func (w *c05World) abstract(tok string, present bool, t0 int64) map[string]any {
 	abs := map[string]any{"present": present, "now": t0}
 	if !present {
@@ -889,16 +1060,34 @@ func (w *c05World) abstract(tok string, present bool, t0 int64) map[string]any {
 
 	_, hasB64 := hdr["b64"]
 
-	if v, ok := hdr["jwk"]; ok && v != nil {
-		// RFC 7515, 4.1.3: only a well-formed public key may be embedded (parsed with go-jose's JWK type; the key is
-		// never used for verification)
-		var jwk jose.JSONWebKey
+	if v, ok := hdr["jwk"]; ok && v != nil && !c05PublicJWK(v) {
+		// RFC 7515, 4.1.3: only a well-formed public key may be embedded (it is never used for verification)
+		abs["why"] = "jwk"
 
-		enc, _ := json.Marshal(v)
-		if err := jwk.UnmarshalJSON(enc); err != nil || !jwk.Valid() || !jwk.IsPublic() {
-			abs["why"] = "jwk"
+		return abs
+	}
+
+	if v, ok := hdr["x5c"]; ok && v != nil { // RFC 7515, 4.1.6: base64 (not base64url) encoded DER certificates
+		chain, isArr := v.([]any)
+		if !isArr {
+			abs["why"] = "x5c"
 
 			return abs
+		}
+
+		for _, e := range chain {
+			str, _ := e.(string)
+
+			der, err := base64.StdEncoding.DecodeString(str)
+			if err == nil {
+				_, err = x509.ParseCertificate(der)
+			}
+
+			if err != nil {
+				abs["why"] = "x5c"
+
+				return abs
+			}
 		}
 	}
 
@@ -921,7 +1110,9 @@ func (w *c05World) abstract(tok string, present bool, t0 int64) map[string]any {
 	sig := make([]bool, len(w.mats))
 
 	for i, m := range w.mats {
-		sig[i] = c05Verify(alg, m.pub, input, raw[2])
+		if m.ready.Load() { // material never used so far can neither have signed the token nor be in a key set
+			sig[i] = c05Verify(alg, m.public(), input, raw[2])
+		}
 	}
 
 	abs["sig"] = sig
@@ -953,6 +1144,7 @@ func c05Kind(err error) string {
 
 func (w *c05World) config(c map[string]any) map[string]any {
 	conf := map[string]any{}
+	cc := obj(c["conf"])
 
 	if getStr(c, "mode") == "metadata" {
 		meta := obj(c["meta"])
@@ -960,11 +1152,12 @@ func (w *c05World) config(c map[string]any) map[string]any {
 			"url": w.srv.URL + "/.well-known/openid-configuration",
 			"disable_issuer_identifier_verification": !getBool(meta, "verify"),
 		}
+	} else if getBool(cc, "templated") { // one key set per issuer, selected by the (unverified) iss claim
+		conf["jwks_endpoint"] = map[string]any{"url": w.srv.URL + "/jwks?iss={{ .TokenIssuer }}"}
 	} else {
 		conf["jwks_endpoint"] = map[string]any{"url": w.srv.URL + "/jwks"}
 	}
 
-	cc := obj(c["conf"])
 	if a, ok := cc["assertions"]; ok && a != nil {
 		conf["assertions"] = w.subst(a, 0)
 	}
@@ -988,6 +1181,50 @@ func (w *c05World) config(c map[string]any) map[string]any {
 	return conf
 }
 
+// one request: mint, execute, abstract. ok reports whether it ran inside one clock second.
+func (w *c05World) request(auth authenticators.Authenticator, cch cache.Cache, tokSpec map[string]any) (
+	res, abs, info map[string]any, ok bool, err error,
+) {
+	t0 := time.Now().Unix()
+	token, present := "", tokSpec != nil
+
+	if present {
+		if token, err = w.mint(tokSpec, t0); err != nil {
+			return nil, nil, nil, false, err
+		}
+
+		if token, err = w.mutate(token, getArr(tokSpec, "mut"), t0); err != nil {
+			return nil, nil, nil, false, err
+		}
+	}
+
+	req := httptest.NewRequest(http.MethodGet, "http://heimdall.local/protected", nil)
+	req = req.WithContext(cache.WithContext(req.Context(), cch))
+
+	if present {
+		req.Header.Set("Authorization", "Bearer "+token)
+	}
+
+	sub, execErr := auth.Execute(requestcontext.New(req))
+	t1 := time.Now().Unix()
+
+	info = map[string]any{"token": token}
+
+	switch {
+	case execErr != nil && sub != nil:
+		res = map[string]any{"verdict": "both"}
+	case execErr != nil:
+		res = map[string]any{"verdict": "reject"}
+		info["kind"] = c05Kind(execErr)
+	case sub == nil:
+		res = map[string]any{"verdict": "neither"}
+	default:
+		res = map[string]any{"verdict": "accept", "id": sub.ID, "attrs": map[string]any(sub.Attributes)}
+	}
+
+	return res, w.abstract(token, present, t0), info, t0 == t1, nil
+}
+
 func runJwt(c map[string]any) (any, error) {
 	c05Once.Do(c05Setup)
 
@@ -997,118 +1234,89 @@ func runJwt(c map[string]any) (any, error) {
 
 	w := c05W
 
-	// endpoint behaviour
-	jwks := obj(c["jwks"])
-
-	body, err := w.jwksJSON(jwks)
-	if err != nil {
-		return nil, err
+	if getStr(c, "op") == "algs" { // the algorithm lists as the linked code states them
+		return map[string]any{
+			"supported":       authenticators.VerifC05SupportedAlgorithms(),
+			"default_allowed": authenticators.VerifC05DefaultAllowedAlgorithms(),
+		}, nil
 	}
 
-	w.mu.Lock()
-	w.jwksCalls, w.metaCalls = 0, 0
-
-	switch getStr(jwks, "status") {
-	case "http500":
-		w.jwksStatus, w.jwksBody = http.StatusInternalServerError, nil
-	case "garbage":
-		w.jwksStatus, w.jwksBody = http.StatusOK, []byte(`{"keys": [{"kty": "RSA"`)
-	case "badkey":
-		w.jwksStatus, w.jwksBody = http.StatusOK, []byte(`{"keys": [{"kty": "RSA", "n": "AQAB", "e": ""}]}`)
-	default:
-		w.jwksStatus, w.jwksBody = http.StatusOK, body
+	steps := []map[string]any{}
+	for _, p := range getArr(c, "pre") {
+		steps = append(steps, obj(p))
 	}
 
-	meta := obj(c["meta"])
+	steps = append(steps, map[string]any{"jwks": c["jwks"], "token": c["token"]})
 
-	switch getStr(meta, "status") {
-	case "http500":
-		w.metaStatus, w.metaBody = http.StatusInternalServerError, nil
-	case "nojwks":
-		w.metaStatus = http.StatusOK
-		w.metaBody, _ = json.Marshal(map[string]any{"issuer": w.subst(getStr(meta, "issuer"), 0)})
-	default:
-		w.metaStatus = http.StatusOK
-		w.metaBody, _ = json.Marshal(map[string]any{
-			"issuer": w.subst(getStr(meta, "issuer"), 0), "jwks_uri": w.srv.URL + "/jwks",
-		})
-	}
-	w.mu.Unlock()
+	var out map[string]any
 
-	// the authenticator, built the way the mechanism catalogue builds it
-	proto, err := authenticators.CreatePrototype(c05Creation{}, "c05", authenticators.AuthenticatorJwt, w.config(c))
-	if err != nil {
-		return map[string]any{"res": map[string]any{"verdict": "config"}, "info": map[string]any{"kind": c05Kind(err), "srv": w.srv.URL}}, nil
-	}
-
-	auth := proto
-
-	if rc := obj(c["rule"]); rc != nil {
-		if auth, err = proto.WithConfig(obj(w.subst(rc, 0))); err != nil {
+	for tries := 1; tries <= 8; tries++ {
+		// the authenticator, built the way the mechanism catalogue builds it; a real (empty) in-memory cache
+		proto, err := authenticators.CreatePrototype(c05Creation{}, "c05", authenticators.AuthenticatorJwt, w.config(c))
+		if err != nil {
 			return map[string]any{"res": map[string]any{"verdict": "config"},
-				"info": map[string]any{"kind": c05Kind(err), "at": "rule", "srv": w.srv.URL}}, nil
+				"info": map[string]any{"kind": c05Kind(err), "srv": w.srv.URL}}, nil
 		}
-	}
 
-	tokSpec := obj(c["token"])
+		auth := proto
 
-	var (
-		res   map[string]any
-		info  map[string]any
-		abs   map[string]any
-		tries int
-	)
-
-	for tries = 1; tries <= 8; tries++ {
-		t0 := time.Now().Unix()
-		token, present := "", tokSpec != nil
-
-		if present {
-			if token, err = w.mint(tokSpec, t0); err != nil {
-				return nil, err
-			}
-
-			if token, err = w.mutate(token, getArr(tokSpec, "mut"), t0); err != nil {
-				return nil, err
+		if rc := obj(c["rule"]); rc != nil {
+			if auth, err = proto.WithConfig(obj(w.subst(rc, 0))); err != nil {
+				return map[string]any{"res": map[string]any{"verdict": "config"},
+					"info": map[string]any{"kind": c05Kind(err), "at": "rule", "srv": w.srv.URL}}, nil
 			}
 		}
 
-		req := httptest.NewRequest(http.MethodGet, "http://heimdall.local/protected", nil)
-		if present {
-			req.Header.Set("Authorization", "Bearer "+token)
+		cch, err := memory.NewCache(nil, nil, nil)
+		if err != nil {
+			return nil, err
 		}
 
-		sub, execErr := auth.Execute(requestcontext.New(req))
-		t1 := time.Now().Unix()
+		w.mu.Lock()
+		w.jwksCalls, w.metaCalls = 0, 0
+		w.mu.Unlock()
 
-		info = map[string]any{"token": token}
+		allOK := true
+		pre := []any{}
+		absPre := []any{}
 
-		switch {
-		case execErr != nil && sub != nil:
-			res = map[string]any{"verdict": "both"}
-		case execErr != nil:
-			res = map[string]any{"verdict": "reject"}
-			info["kind"] = c05Kind(execErr)
-			info["fallback"] = auth.IsFallbackOnErrorAllowed()
-		case sub == nil:
-			res = map[string]any{"verdict": "neither"}
-		default:
-			res = map[string]any{"verdict": "accept", "id": sub.ID, "attrs": map[string]any(sub.Attributes)}
+		var res, abs, info map[string]any
+
+		for i, st := range steps {
+			if err = w.serving(c, st); err != nil {
+				return nil, err
+			}
+
+			var ok bool
+
+			if res, abs, info, ok, err = w.request(auth, cch, obj(st["token"])); err != nil {
+				return nil, err
+			}
+
+			allOK = allOK && ok
+
+			if i < len(steps)-1 {
+				pre = append(pre, res)
+				absPre = append(absPre, abs)
+			}
 		}
 
-		abs = w.abstract(token, present, t0)
-		info["clock_ok"] = t0 == t1
+		res["pre"] = pre
+		info["clock_ok"], info["tries"], info["srv"] = allOK, tries, w.srv.URL
+		info["fallback"] = auth.IsFallbackOnErrorAllowed()
 
-		if t0 == t1 {
+		w.mu.Lock()
+		info["jwks_calls"], info["meta_calls"] = w.jwksCalls, w.metaCalls
+		w.mu.Unlock()
+
+		out = map[string]any{"res": res, "abs": abs, "abs_pre": absPre, "info": info}
+
+		if allOK {
 			break
 		}
 	}
 
-	w.mu.Lock()
-	info["jwks_calls"], info["meta_calls"], info["tries"], info["srv"] = w.jwksCalls, w.metaCalls, tries, w.srv.URL
-	w.mu.Unlock()
-
-	return map[string]any{"res": res, "abs": abs, "info": info}, nil
+	return out, nil
 }
 
 var _ = sort.Strings
